@@ -81,6 +81,39 @@ fn real_main() -> i32 {
             }
             report::finish(&run, &partial, &|body| props::replay(body))
         }
+        "roots" => {
+            // list the curated roots and anything the library (or the reference model) rejects
+            let sink = report::Sink::new("roots", 0);
+            println!("mid roots: {} of {}", universes::mid_roots(&sink).len(), universes::MID_ROOTS.len());
+            println!("clock roots: {}", universes::clock_roots(&sink).len());
+            let lr = universes::line_roots(&sink);
+            let want: usize = universes::LINES.iter().map(|l| l.2.split_whitespace().count() + 1).sum();
+            println!("line roots: {} of {}", lr.len(), want);
+            for n in sink.take_notes() {
+                println!("NOTE {}", n);
+            }
+            0
+        }
+        "moves" => {
+            // debugging aid: reference and library moves of one FEN
+            let b = cozy_chess::Board::from_fen(&args[2], true).or_else(|_| args[2].parse::<cozy_chess::Board>()).expect("fen");
+            let p = bridge::alpha(&b);
+            println!("ref: {}", p.legal_moves().iter().map(|m| m.text()).collect::<Vec<_>>().join(" "));
+            println!("lib: {}", bridge::lib_moves_sorted(&b).iter().map(|m| m.text()).collect::<Vec<_>>().join(" "));
+            0
+        }
+        "count" => {
+            // distinct states of the explicit-state search without null moves (for the cross-check
+            // against the stateright-based explorer)
+            let depth: usize = args[2].parse().unwrap_or(0);
+            let sink = report::Sink::new("count", 0);
+            let roots = universes::fen_roots(&args[3..].to_vec(), &sink);
+            struct Idle;
+            impl explore::Monitor for Idle {}
+            let t = explore::bfs(&roots, &explore::Bounds { depth, max_nulls: 0 }, &Idle, &sink);
+            println!("unique={}", t.states);
+            0
+        }
         "merge" => {
             if args.len() < 5 {
                 println!("MACHINERY-ERROR usage: merge PROP TIER partial...");
